@@ -87,6 +87,9 @@ type Driver struct {
 	OnReturn func(r *ReadRet)
 	// BigRead decides whether a BigMessage gets read.
 	BigRead func(b *mqtt.BigMessage) bool
+	// WaitBackoff makes the read loop wait on the ReadBackoff channel.
+	WaitBackoff  bool
+	BackoffStuck bool
 	// BackoffNil lists the non-ErrClosed errors for which ReadBackoff gave nil.
 	BackoffNil []error
 	// Spun tells that the read loop gave up after too many consecutive errors.
@@ -98,6 +101,10 @@ type Driver struct {
 func InstallHooks(w *World) {
 	f := w.OnPoint
 	mqtt.VerifHook.Store(&f)
+	n := func(name string, value int64) {
+		w.Log(Event{Kind: "note", Note: name, N: int(value)})
+	}
+	mqtt.VerifNoteHook.Store(&n)
 }
 
 // NewDriver wraps a Client.
@@ -293,7 +300,20 @@ func (d *Driver) StartReader() {
 				if errors.Is(err, mqtt.ErrClosed) {
 					return
 				}
-				if d.C.ReadBackoff(err) == nil {
+				t0 := time.Now() // before the call: the timer starts inside
+				bo := d.C.ReadBackoff(err)
+				if bo != nil && d.WaitBackoff {
+					select {
+					case <-bo:
+						d.W.Log(Event{Kind: "backoff.waited", N: int(time.Since(t0))})
+					case <-time.After(StepTimeout):
+						d.W.Log(Event{Kind: "monitor", Note: "ReadBackoff channel did not close within the watchdog"})
+						d.mu.Lock()
+						d.BackoffStuck = true
+						d.mu.Unlock()
+					}
+				}
+				if bo == nil {
 					d.W.Log(Event{Kind: "monitor", Note: "ReadBackoff returned nil for a non-ErrClosed error: " + err.Error()})
 					d.mu.Lock()
 					d.BackoffNil = append(d.BackoffNil, err)
